@@ -465,6 +465,9 @@ def ob_parser_tables(ctx, res):
             res.fail("parserTables/keywords/%s" % nm, f, "%s maps declaration keywords to the wrong type: %s (got, expected)" % (nm, bad))
         else:
             res.ok(f, "%s: simple/object/table -> Simple/Object/Table" % nm)
+    # (4) every whitespace character ends a word: the tokenizer skips whitespace with char::is_whitespace, so a whitespace character that is not
+    #     a word delimiter (a CR in a CRLF schema) is glued to the word before it and the schema is rejected
+    _delimiter_clause(ctx, res)
     # (3) declaration names are identifiers: letters, digits, underscore; not starting with a digit
     dn = ctx.ast.fn(A, "parse", impl="DeclareName")
     ifs = [n for n in walk_no_nested_fn(dn.body) if n.k == "if" and "InvalidDeclareName" in up(n["then"])]
@@ -493,6 +496,44 @@ def ob_parser_tables(ctx, res):
                  "and the bigBed header silently falls back to field count 3; condition: `%s`" % up(ifs[0]["cond"]))
     else:
         res.ok(ifs[0], "DeclareName: first character letter or `_`, the rest letters, digits or `_`")
+
+
+def _delimiter_clause(ctx, res):
+    from ..rules.interp import Interp, NotPure, _Return
+    wd = ctx.ast.fn(A, "is_word_delimiter", required=False)
+    if wd is None:
+        res.undecided("parserTables/delimiters", A, "is_word_delimiter not found: word boundaries not decided")
+        return
+
+    def method(m, recv, args):
+        if isinstance(recv, str) and len(recv) == 1 and not args:
+            if m == "is_whitespace":
+                return recv.isspace()
+            if m == "is_ascii_whitespace":
+                return recv in " \t\n\x0c\r"
+            if m == "is_alphanumeric":
+                return recv.isalpha() or recv.isnumeric()
+            if m == "is_alphabetic":
+                return recv.isalpha()
+            if m == "is_ascii_punctuation":
+                return recv.isascii() and not recv.isalnum() and not recv.isspace() and recv.isprintable()
+        raise NotPure("method " + m)
+    want = [(c_, True) for c_ in " \t\n\r\x0b\x0c\u00a0\u2003;()[],"] + [(c_, False) for c_ in "aZ_19"]
+    for c_, w_ in want:
+        try:
+            got = Interp(ctx.ast, A, extern={"None": None, "method": method}).call(wd, [c_])
+        except (NotPure, _Return) as e:
+            res.undecided("parserTables/delimiters", wd, "is_word_delimiter not evaluated (%s)" % str(e)[:60])
+            return
+        except Exception as e:
+            res.undecided("parserTables/delimiters", wd, "is_word_delimiter not evaluated (%s)" % str(e)[:60])
+            return
+        if bool(got) != w_:
+            res.fail("parserTables/delimiters", wd, "is_word_delimiter(%r) is %s, required %s: whitespace is skipped with char::is_whitespace, so every whitespace character (CR of a CRLF "
+                                                    "schema, form feed, no-break space) and `; ( ) [ ] ,` must end a word, identifier characters must not - otherwise a valid schema is "
+                                                    "rejected and the bigBed header falls back to field count 3" % (c_, bool(got), w_))
+            return
+    res.ok(wd, "is_word_delimiter evaluated on %d characters: all whitespace and `; ( ) [ ] ,` end a word, identifier characters do not" % len(want))
 
 
 _NAME_CASES = [("abc", True), ("_a1", True), ("my_bed", True), ("a1_", True), ("B", True), ("\u00e9t\u00e9", True),
